@@ -30,7 +30,8 @@ def template(ctx: Ctx, f: FuncInfo, e: Optional[ast.AST], _depth: int = 0) -> Op
                 if v.format_spec is not None or v.conversion not in (-1, 115):
                     return None
                 sub = template(ctx, f, v.value, _depth + 1)
-                out += sub if sub is not None and isinstance(v.value, (ast.Name, ast.JoinedStr)) and _is_str_local(ctx, f, v.value) else [("expr", ctx.vals.canon(f, v.value))]
+                is_const = isinstance(v.value, ast.Name) and sub is not None and len(sub) == 1 and sub[0][0] == "lit"
+                out += sub if sub is not None and isinstance(v.value, (ast.Name, ast.JoinedStr)) and (is_const or _is_str_local(ctx, f, v.value)) else [("expr", ctx.vals.canon(f, v.value))]
         return merge(out)
     if isinstance(e, ast.BinOp) and isinstance(e.op, ast.Add):
         l, r = template(ctx, f, e.left, _depth + 1), template(ctx, f, e.right, _depth + 1)
@@ -72,10 +73,25 @@ def template(ctx: Ctx, f: FuncInfo, e: Optional[ast.AST], _depth: int = 0) -> Op
         return [("expr", ctx.vals.canon(f, e.args[0]))]
     if isinstance(e, ast.Name):
         if e.id in sc.defs and e.id not in sc.params:
-            vals = [h[1] for h in sc.defs[e.id] if h[0] == "assign"] + [h[2] for h in sc.defs[e.id] if h[0] == "ann"]
-            if len(vals) == 1 and len(sc.defs[e.id]) == 1 and ctx.vals.bindings(f, e.id) is not None:
-                return template(ctx, f, vals[0], _depth + 1)
+            vals = ctx.vals.bindings(f, e.id)
+            if vals:
+                # one binding, or several that all build the same text (`name = f(i)` before and inside a loop)
+                ts = [template(ctx, f, v, _depth + 1) for v in vals]
+                if all(t is not None and t == ts[0] for t in ts) and (len(ts) == 1 or any(k == "lit" for k, _ in ts[0])):
+                    return ts[0]
+        c = ctx.vals.const(f, e)
+        if c is not None and isinstance(c.value, (str, int)) and e.id not in sc.defs and e.id not in sc.params:
+            return [("lit", str(c.value))]  # module-level constant
         return [("expr", e.id)]
+    if isinstance(e, ast.NamedExpr):
+        return template(ctx, f, e.value, _depth + 1)
+    if isinstance(e, ast.Call) and id(e) in ctx.an.spliced_at:
+        # a helper spliced into f that builds the text: what all its returns build
+        t = ctx.an.spliced_at[id(e)]
+        rets = [r.value for r in ctx.an.scope(t)._own_nodes() if isinstance(r, ast.Return) and r.value is not None]
+        ts = [template(ctx, t, r, _depth + 1) for r in rets]
+        if ts and all(x is not None and x == ts[0] for x in ts) and not any(k == "expr" and v in ctx.an.scope(t).params for k, v in ts[0]):
+            return ts[0]
     return [("expr", ctx.vals.canon(f, e))]
 
 
@@ -114,7 +130,7 @@ def r_register_membership(ctx: Ctx, rule: str):
     adds = [e for e in ctx.effects(kinds=["insert"]) if e.path in (GROUPS + "[]", "<group_reg>") and ctx.in_pool(e.node.func)]
     rep.floor(rule, "register add sites", len(adds), 1)
     for e in adds:
-        rep.ob(rule, "ids are added to a group register only by _start_task", ctx.hosts(e.node.func) <= {"_start_task"}, node=e.node, detail=f"on behalf of {sorted(ctx.hosts(e.node.func))}")
+        rep.ob(rule, "ids are added to a group register only by _start_task", ctx.hosts_of(e.node) <= {"_start_task"}, node=e.node, detail=f"on behalf of {sorted(ctx.hosts_of(e.node))}")
     for f in ctx.pool_funcs("_start_task"):
         g = ctx.an.cfg(f)
         sc = ctx.an.scope(f)
@@ -199,8 +215,18 @@ def r_group_name_generator(ctx: Ctx, rule: str):
                       and t[3] == ("lit", "-group-") and t[4][0] == "expr")
             rep.ob(rule, "generated names follow '<prefix>-<func name>-group-<i>'", ok, node=r, detail=f"template {show(t)}")
             v = r.ast.value
+
+            def same_name(left: ast.AST) -> bool:
+                """the value tested for membership is the value returned"""
+                if ast.unparse(left) == ast.unparse(v):
+                    return True
+                if isinstance(left, ast.NamedExpr) and isinstance(v, ast.Name) and left.target.id == v.id:
+                    return True
+                tl, tv = template(ctx, f, left), template(ctx, f, v)
+                return tl is not None and tl == tv and any(k == "lit" for k, _ in tl)
+
             tests = ctx.nodes(f, lambda n: n.op == "test" and isinstance(n.ast, ast.Compare) and len(n.ast.ops) == 1 and isinstance(n.ast.ops[0], (ast.In, ast.NotIn))
-                              and ctx.eff.paths(f).of(n.ast.comparators[0]) == GROUPS and ast.unparse(n.ast.left) == ast.unparse(v))
+                              and ctx.eff.paths(f).of(n.ast.comparators[0]) == GROUPS and same_name(n.ast.left))
 
             def ef(a: Node, b: Node, lab: Label) -> bool:
                 if a in tests and lab[0] in ("T", "F"):
@@ -242,9 +268,9 @@ def r_group_name_generator(ctx: Ctx, rule: str):
             # the name is computed from the counter before the increment (or the increment precedes consistently for every call)
             names = ctx.nodes(f, lambda n: n.op == "assign" and isinstance(n.ast.value, ast.JoinedStr))
     w = [e for e in ctx.effects(fields=["_start_calls"], kinds=["assign", "aug"])]
-    rep.ob(rule, "the start counter is initialised by a constructor", any(ctx.hosts(e.node.func) <= {"__init__"} and e.kind == "assign" for e in w), construct="self._start_calls = 0 in __init__")
+    rep.ob(rule, "the start counter is initialised by a constructor", any(ctx.hosts_of(e.node) <= {"__init__"} and e.kind == "assign" for e in w), construct="self._start_calls = 0 in __init__")
     for e in w:
-        hosts = ctx.hosts(e.node.func)
+        hosts = ctx.hosts_of(e.node)
         rep.ob(rule, "the start counter is written only by the constructor (=0) and start (+1)", hosts <= {"__init__", "start"}, node=e.node)
         if hosts <= {"__init__"}:
             v = getattr(e.node.ast, "value", None)
@@ -310,9 +336,9 @@ def r_id_discipline(ctx: Ctx, rule: str):
                    "wrapper argument, task name and return value")
     w = [e for e in ctx.effects(fields=["_num_started"], kinds=["assign", "aug"]) if e.path.endswith("._num_started")]
     rep.floor(rule, "writes of _num_started", len(w), 2)
-    rep.ob(rule, "the id counter is initialised by the constructor", any(ctx.hosts(e.node.func) <= {"__init__"} and e.kind == "assign" for e in w), construct="self._num_started = 0 in __init__")
+    rep.ob(rule, "the id counter is initialised by the constructor", any(ctx.hosts_of(e.node) <= {"__init__"} and e.kind == "assign" for e in w), construct="self._num_started = 0 in __init__")
     for e in w:
-        hosts = ctx.hosts(e.node.func)
+        hosts = ctx.hosts_of(e.node)
         rep.ob(rule, "_num_started is written only by the constructor and _start_task", hosts <= {"__init__", "_start_task"} and ctx.in_pool(e.node.func), node=e.node,
                detail=f"on behalf of {sorted(hosts)}")
         if hosts <= {"__init__"}:
